@@ -61,9 +61,9 @@ type config struct {
 	spe, epp uint64
 }
 
-func (c config) epoch(slot uint64) uint64  { return slot / c.spe }
-func (c config) pos(slot uint64) uint64    { return slot % c.spe }
-func (c config) period(ep uint64) uint64   { return ep / c.epp }
+func (c config) epoch(slot uint64) uint64 { return slot / c.spe }
+func (c config) pos(slot uint64) uint64   { return slot % c.spe }
+func (c config) period(ep uint64) uint64  { return ep / c.epp }
 func (c config) keyOfSlot(s uint64) uint64 { // epoch (attester, proposer) or period (sync committee)
 	if c.kind == 'S' {
 		return c.period(c.epoch(s))
@@ -141,7 +141,9 @@ func (n fakeNet) EstimatedEpochAtSlot(s phase0.Slot) phase0.Epoch {
 	return phase0.Epoch(s / phase0.Slot(n.SlotsPerEpoch()))
 }
 func (n fakeNet) FirstSlotAtEpoch(e phase0.Epoch) phase0.Slot { return phase0.Slot(uint64(e) * n.spe) }
-func (n fakeNet) EpochStartTime(e phase0.Epoch) time.Time      { return n.GetSlotStartTime(n.FirstSlotAtEpoch(e)) }
+func (n fakeNet) EpochStartTime(e phase0.Epoch) time.Time {
+	return n.GetSlotStartTime(n.FirstSlotAtEpoch(e))
+}
 
 // far in the future: the fetch deadline contexts derived from it never expire during a case
 func (n fakeNet) GetSlotStartTime(phase0.Slot) time.Time { return time.Now().Add(time.Hour) }
